@@ -733,14 +733,15 @@ func (r *PipelineRunner) SaveToStore() {
 		WithField("component", "runner").
 		Debugf("Saving job state to data store")
 
-	r.mx.RLock()
+	// A write lock is needed since jobs are removed from the runner state below (retention)
+	r.mx.Lock()
 	data := &store.PersistedData{
 		Jobs: make([]store.PersistedJob, 0, len(r.jobsByID)),
 	}
 
 	// Remove jobs whose retention period has expired
 	for _, jobsInPipeline := range r.jobsByPipeline {
-		// Make a copy of the slice before sorting to prevent data races (we only have a read lock here)
+		// Make a copy of the slice before sorting, since jobs are removed from the original slice while iterating
 		sortedJobsInPipeline := make([]*PipelineJob, len(jobsInPipeline))
 		copy(sortedJobsInPipeline, jobsInPipeline)
 		pipelineJobBy(byCreationTimeDesc).Sort(sortedJobsInPipeline)
@@ -805,7 +806,7 @@ func (r *PipelineRunner) SaveToStore() {
 			User:      job.User,
 		})
 	}
-	r.mx.RUnlock()
+	r.mx.Unlock()
 
 	// We do not need to lock here, the single save loops guarantees non-concurrent saves
 
